@@ -58,16 +58,17 @@ pub fn run(s: &dyn Subject, ctx: &Ctx) -> Option<DeclReport> {
                 rep.violate(sig, raw.show(), obs.show(), format!("Err({})", exp_names.join("|")), format!("sanitized {}; {} rule(s) violated", exp.sanitized.show(), exp.n_violated));
             }
             // (an Err where the oracle accepts is a C01 matter, not reported here)
+            let vclass = if spec.custom.is_some() { "custom-error" } else { variant.as_str() };
             if exp.n_violated >= 2 {
                 rep.guard("multi_violation");
-                rep.class(&format!("multi:{variant}"));
+                rep.class(&format!("multi:{vclass}"));
                 if exp.first_violated.map(|i| i > 0).unwrap_or(false) {
                     rep.guard("first_violated_not_first_declared");
                 }
             } else {
-                rep.class(&format!("single:{variant}"));
+                rep.class(&format!("single:{vclass}"));
             }
-            rep.bump(&format!("err:{variant}"));
+            rep.bump(&format!("err:{vclass}"));
             if exp.n_violated >= 2 && rep.samples.len() < 2 {
                 rep.sample(format!("{} :: try_new({}) -> {} ({} rules violated)", spec.src.replace('\n', " "), raw.show(), obs.show(), exp.n_violated));
             }
